@@ -32,6 +32,16 @@ pub struct ExtensionAliases<Z: ZarrVersion, T: ExtensionType> {
     pub aliases_regex: ExtensionAliasMapRegex,
 }
 
+impl<Z: ZarrVersion, T: ExtensionType> Clone for ExtensionAliases<Z, T> {
+    fn clone(&self) -> Self {
+        Self::new(
+            self.default_names.clone(),
+            self.aliases_str.clone(),
+            self.aliases_regex.clone(),
+        )
+    }
+}
+
 impl<Z: ZarrVersion, T: ExtensionType> ExtensionAliases<Z, T> {
     /// Create a new [`ExtensionAliases`].
     #[must_use]
